@@ -504,6 +504,20 @@ class Report:
             "checker_cmd": f"make -C coq -j16 && coqc -Q theories TF -Q props TFP props/{pid}.v "
                            "(full .vo build; Print Assumptions under every property theorem)",
         })
+        if ok and self.tier == "thorough":
+            # independent re-check of the compiled property file and everything
+            # it depends on; lists every axiom of every loaded library
+            t0 = time.time()
+            r = run(["coqchk", "-silent", "-o", "-Q", "theories", "TF", "-Q", "props", "TFP", f"TFP.{pid}"],
+                1800, cwd=COQ)
+            mt = re.search(r"\* Axioms:(.*?)\n\s*\n\* Constants", r.stdout, re.S)
+            ax = mt.group(1).strip() if mt else "?"
+            self.coverage["coqchk"] = {"exit": r.returncode, "axioms": ax,
+                "wall_s": round(time.time() - t0, 1)}
+            if r.returncode != 0 or ax != "<none>":
+                ok = False
+                res["open"] = res.get("open", []) + [f"coqchk: exit {r.returncode}, axioms: {ax[:300]}"]
+                self.coverage["discharged"] = 0
         if not ok:
             what = "build failed" if not res.get("built") else (
                 "axioms: " + "; ".join(res.get("open", [])) if res.get("open") else
